@@ -1,7 +1,7 @@
 """C07 - compressed output is a pure function of input, parameters, dictionary and calls (paired executions, byte compare)"""
 from vlib import build, core
 
-HARNESSES = {'h_c07/plain': ('h_c07', 'plain'), 'h_c07/asan': ('h_c07', 'asan'), 'h_c07/val': ('h_c07', 'val')}
+HARNESSES = {'h_c07/plain': ('h_c07', 'plain'), 'h_c07/asan': ('h_c07', 'asan'), 'h_c07/val': ('h_c07', 'val'), 'h_c07/msan': ('h_c07', 'msan')}
 
 
 def run(prop, tier, seed, t0):
@@ -14,10 +14,13 @@ def run(prop, tier, seed, t0):
     R.run_sharded(res, exes[1], [], na, label='h_c07/asan', variant='asan', first=npl)
     # valgrind memcheck: does any branch / address of the compressor depend on an uninitialised value? (the direct form of 'output does not depend on stale memory')
     nvg = core.valgrind_stage(R, res, HARNESSES['h_c07/val'], [], 1600 if thorough else 32, npl + na)
+    # MemorySanitizer build (library, harness and oracle instrumented): fresh allocator memory and static workspaces are handed out poisoned, so a compressor
+    # decision - or an output byte, through the memcmp of the paired outputs - that depends on memory nobody wrote is reported where it happens
+    nms = core.msan_stage(R, res, HARNESSES['h_c07/msan'], [], 6000 if thorough else 64, npl + na + (1600 if thorough else 32))
     cov = {
-        'evaluations': res.stat('pairs'), 'workloads_under_valgrind_memcheck': nvg, 'distinct_nontrivial': res.stat('workloads'),
+        'evaluations': res.stat('pairs'), 'workloads_under_valgrind_memcheck': nvg, 'workloads_under_memory_sanitizer': nms, 'distinct_nontrivial': res.stat('workloads'),
         'rule': 'workload = (input, parameter vector incl. MT, dictionary mode, script indexed by input offset or compress2); reference = fresh context on a zero-filled heap; variants differ in exactly one of: second fresh context, reuse, heap fill 0xFF / noise, prior context history (other frames and parameters, failed and aborted operations + reset, prefixes, dictionaries), '
                 'static context in noise-filled caller memory, buffer placement/alignment, output-capacity sequence, number of workers; on a difference both frames are parsed by R and classified (header / block boundaries / same boundaries). distinct non-trivial = distinct workloads whose reference compression succeeded (each yields 8-12 pairs)',
         'pairs': res.stat('pairs'), 'pairs_identical': res.stat('pairs_identical'), 'pairs_per_axis': res.cells.get('axis', {}), 'memory_refusals': res.stat('memory_refusals'), 'applied_cells': res.ncells('applied'),
     }
-    return core.finish(prop, tier, seed, 'exploration', res, cov, ['schedule axis of MT determinism is exercised in C11 (serialised schedules, byte compare across schedules)', 'definedness is judged by valgrind memcheck on a share of the workloads and by heap-fill pairs on all (no MSan build)', 'sampling'], t0, R)
+    return core.finish(prop, tier, seed, 'exploration', res, cov, ['schedule axis of MT determinism is exercised in C11 (serialised schedules, byte compare across schedules)', 'definedness is judged by MemorySanitizer and valgrind memcheck on a share of the workloads and by heap-fill pairs on all', 'sampling'], t0, R)
